@@ -20,6 +20,7 @@ import (
 	v1 "k8s.io/api/core/v1"
 	metav1 "k8s.io/apimachinery/pkg/apis/meta/v1"
 	"k8s.io/apimachinery/pkg/apis/meta/v1/unstructured"
+	"k8s.io/apimachinery/pkg/fields"
 	"k8s.io/apimachinery/pkg/labels"
 	"k8s.io/apimachinery/pkg/runtime/schema"
 	"k8s.io/client-go/dynamic"
@@ -122,8 +123,21 @@ func (r *zzReg) matches(gvr schema.GroupVersionResource, obj *unstructured.Unstr
 	if r.index.Namespace != "" && obj.GetNamespace() != r.index.Namespace {
 		return false
 	}
-	if n := zzFieldName(r.index.FieldSelector); n != "" && obj.GetName() != n {
-		return false
+	// the whole field selector, every requirement of it (as an API server evaluates it)
+	if r.index.FieldSelector != "" {
+		if sel, err := fields.ParseSelector(r.index.FieldSelector); err == nil {
+			set := fields.Set{}
+			for _, req := range sel.Requirements() {
+				if v, ok, _ := unstructured.NestedString(obj.Object, strings.Split(req.Field, ".")...); ok {
+					set[req.Field] = v
+				}
+			}
+			if !sel.Matches(set) {
+				return false
+			}
+		} else if n := zzFieldName(r.index.FieldSelector); n != "" && obj.GetName() != n {
+			return false
+		}
 	}
 	if r.index.LabelSelector != "" {
 		sel, err := labels.Parse(r.index.LabelSelector)
